@@ -29,6 +29,7 @@ var forgeKinds = []string{"valid", "method", "identity", "otherkey", "nonce+1", 
 
 // AReq is one signed request as sent, plus how its signature was made.
 type AReq struct {
+	Field    int    `json:"changed_field,omitempty"`
 	Endpoint string `json:"endpoint"`
 	Identity string `json:"identity"` // logical name of the claimed identity
 	Forge    string `json:"forge"`
@@ -44,6 +45,7 @@ type AReq struct {
 }
 
 type authWorld struct {
+	forceBase, forceK int // param sweep: which base and which single field to change (0 = draw)
 	*world
 	nodes   []string
 	wallets []string
@@ -82,41 +84,107 @@ func (a *authWorld) realID(name string) string {
 	return nodeIDOf(name)
 }
 
-// argsFor builds the parameter list of an endpoint (variant 0) or a changed one (variant 1).
-func (a *authWorld) argsFor(endpoint string, variant int) []interface{} {
+// argsFor builds the parameter list of an endpoint: variant 0 (and, for vipnode_connect, 100: a
+// node of a kind and on a network the code has no name for) is what is sent; variant base+k is
+// the same with ONE field changed, for every field of the request in turn (k = 1 .. argVariants).
+func argVariants(endpoint string) int {
 	switch endpoint {
 	case "vipnode_connect":
-		r := pool.ConnectRequest{VipnodeVersion: "verif", NodeInfo: ethnode.UserAgent{Kind: ethnode.Geth, IsFullNode: false}}
-		if variant == 1 {
+		return 8
+	case "vipnode_update":
+		return 4
+	case "vipnode_peer", "vipnode_client":
+		return 2
+	case "vipnode_host":
+		return 3
+	case "pool_addNode":
+		return 1
+	}
+	return 0
+}
+
+func (a *authWorld) argsFor(endpoint string, variant int) []interface{} {
+	base, k := (variant/100)*100, variant%100
+	switch endpoint {
+	case "vipnode_connect":
+		r := pool.ConnectRequest{VipnodeVersion: "verif", NodeInfo: ethnode.UserAgent{Kind: ethnode.Geth, Network: 1, Version: "Geth/v1.9", EthProtocol: "63", IsFullNode: false}}
+		if base == 100 {
+			r.NodeInfo.Kind, r.NodeInfo.Network = 7, 61
+		}
+		switch k {
+		case 1:
 			r.Payout = walletOf("w2")
+		case 2:
+			r.VipnodeVersion = "verif2"
+		case 3:
+			r.NodeInfo.Version = "Geth/v1.8"
+		case 4:
+			r.NodeInfo.EthProtocol = "64"
+		case 5: // another kind: a named one for a named one, an unnamed one for an unnamed one
+			if base == 100 {
+				r.NodeInfo.Kind = 9
+			} else {
+				r.NodeInfo.Kind = ethnode.Parity
+			}
+		case 6:
+			if base == 100 {
+				r.NodeInfo.Network = 1337
+			} else {
+				r.NodeInfo.Network = 3
+			}
+		case 7:
+			r.NodeURI = "enode://" + a.realID("c1") + "@9.9.9.9:30303"
+		case 8:
+			r.NodeInfo.Network = r.NodeInfo.Network + 1000000
 		}
 		return []interface{}{r}
 	case "vipnode_update":
-		r := pool.UpdateRequest{PeerInfo: peerInfos([]string{nodeIDOf("h1")}), BlockNumber: 7}
-		if variant == 1 {
+		pi := peerInfos([]string{nodeIDOf("h1")})
+		pi[0].Name = "Geth/v1.9"
+		r := pool.UpdateRequest{PeerInfo: pi, BlockNumber: 7}
+		switch k {
+		case 1:
 			r.BlockNumber = 8
+		case 2:
+			r.PeerInfo = peerInfos([]string{nodeIDOf("h2")})
+			r.PeerInfo[0].Name = "Geth/v1.9"
+		case 3:
+			r.PeerInfo[0].Name = "Geth/v1.8"
+		case 4:
+			r.PeerInfo = append(r.PeerInfo, peerInfos([]string{nodeIDOf("h2")})...)
 		}
 		return []interface{}{r}
 	case "vipnode_peer":
 		r := pool.PeerRequest{Num: 1, Kind: "geth"}
-		if variant == 1 {
+		switch k {
+		case 1:
 			r.Num = 2
+		case 2:
+			r.Kind = "parity"
 		}
 		return []interface{}{r}
 	case "vipnode_host":
 		r := pool.HostRequest{Kind: "geth", NodeURI: "enode://x@9.9.9.9:30303"}
-		if variant == 1 {
+		switch k {
+		case 1:
 			r.Payout = walletOf("w2")
+		case 2:
+			r.Kind = "parity"
+		case 3:
+			r.NodeURI = "enode://x@9.9.9.8:30303"
 		}
 		return []interface{}{r}
 	case "vipnode_client":
 		r := pool.ClientRequest{Kind: "geth", NumHosts: 1}
-		if variant == 1 {
+		switch k {
+		case 1:
 			r.NumHosts = 2
+		case 2:
+			r.Kind = "parity"
 		}
 		return []interface{}{r}
 	case "pool_addNode":
-		if variant == 1 {
+		if k == 1 {
 			return []interface{}{nodeIDOf("c2")}
 		}
 		return []interface{}{nodeIDOf("c1")}
@@ -203,7 +271,14 @@ func (a *authWorld) send(rng *rand.Rand, endpoint, forge string) (*AReq, string,
 		idName, other = "w1", "w2"
 	}
 	id := a.realID(idName)
-	args := a.argsFor(endpoint, 0)
+	argBase := 0
+	if endpoint == "vipnode_connect" && rng.Intn(2) == 0 {
+		argBase = 100
+	}
+	if a.forceK > 0 {
+		argBase = a.forceBase
+	}
+	args := a.argsFor(endpoint, argBase)
 	nonce := a.nextNonce()
 	// what is signed: start from what is sent
 	sMethod, sIDName, sNonce, sArgs, sKey := endpoint, idName, nonce, args, idName
@@ -231,7 +306,12 @@ func (a *authWorld) send(rng *rand.Rand, endpoint, forge string) (*AReq, string,
 			forge, q.Forge = "otherkey", "otherkey"
 			sKey = other
 		} else {
-			sArgs = a.argsFor(endpoint, 1)
+			kk := 1 + rng.Intn(argVariants(endpoint))
+			if a.forceK > 0 {
+				kk = a.forceK
+			}
+			sArgs = a.argsFor(endpoint, argBase+kk)
+			q.Field = kk
 		}
 	case "style":
 		sStyleWallet = !wallet
@@ -429,8 +509,50 @@ func (a *authWorld) caseCoq(items []string) string {
 }
 
 // C04: every endpoint x every alteration.
+// c04ParamSweep: for every endpoint, every field of its request changed alone (signed with the
+// changed value, sent with the original): each must be refused.
+func c04ParamSweep(ctx *Ctx, i int, drv int) {
+	a := newAuthWorld(drv)
+	defer a.Close()
+	rng := ctx.Sub(i)
+	var items []string
+	var reqs []*AReq
+	var mon []string
+	for _, ep := range authEndpoints {
+		bases := []int{0}
+		if ep == "vipnode_connect" {
+			bases = []int{0, 100}
+		}
+		for _, b := range bases {
+			for k := 1; k <= argVariants(ep); k++ {
+				a.forceBase, a.forceK = b, k
+				q, coq, m := a.send(rng, ep, "param")
+				items = append(items, coq)
+				reqs = append(reqs, q)
+				mon = append(mon, m...)
+			}
+			a.forceK = 0
+			q, coq, m := a.send(rng, ep, "valid")
+			items = append(items, coq)
+			reqs = append(reqs, q)
+			mon = append(mon, m...)
+		}
+	}
+	ctx.Emit(Case{I: i, Kind: "param-sweep-" + driverNames[drv], Coq: a.caseCoq(items), Desc: map[string]interface{}{"requests": reqs}, Monitor: mon})
+}
+
 func runC04(ctx *Ctx) {
 	n := ctx.N(24, 600)
+	for drv := 0; drv < 2; drv++ {
+		if ctx.Want(n + 50 + drv) {
+			c04ParamSweep(ctx, n+50+drv, drv)
+		}
+	}
+	for c := 0; c < ctx.N(6, 60); c++ {
+		if ctx.Want(n + 100 + c) {
+			e2eCase(ctx, n+100+c, ctx.Sub(n+100+c), "c04-")
+		}
+	}
 	forEachCase(ctx, n, func(i int, rng *rand.Rand) {
 		drv := i % 2
 		a := newAuthWorld(drv)
@@ -459,8 +581,48 @@ func runC04(ctx *Ctx) {
 
 // C06: refused requests interleaved at any point of a valid session; afterwards the owner's
 // request with a smaller but fresh nonce must still be accepted.
+// c06Crowd: a request carrying a few-minutes-old (still fresh) nonce is accepted; hundreds of
+// other identities use the pool; the first request is replayed verbatim. It is a repeat: it must
+// be refused and leave no trace, however busy the nonce table has been in between.
+func c06Crowd(ctx *Ctx, i int, drv int) {
+	a := newAuthWorld(drv)
+	defer a.Close()
+	var mon []string
+	id := a.realID("c3")
+	args := a.argsFor("vipnode_connect", 0)
+	n0 := time.Now().UnixNano() - int64(5*time.Minute)
+	sig := signNodeStyle(keyFor("c3"), "vipnode_connect", id, n0, args)
+	first := a.call("vipnode_connect", sig, id, n0, args)
+	crowd := 600
+	for k := 0; k < crowd; k++ {
+		if err := a.st.CheckAndSaveNonce(fmt.Sprintf("crowd-%d-%d", i, k), time.Now().UnixNano()); err != nil {
+			fatal("crowd nonce: %v", err)
+		}
+	}
+	before := a.digest(a.nodes, a.wallets)
+	a.takeCalls()
+	again := a.call("vipnode_connect", sig, id, n0, args)
+	after := a.digest(a.nodes, a.wallets)
+	if first != nil {
+		mon = append(mon, fmt.Sprintf("c04-valid-refused: a correctly signed connect with a 5-minute-old nonce was refused: %v", first))
+	} else {
+		if classify(again).Class != "verify" {
+			mon = append(mon, fmt.Sprintf("c06-replay-after-busy-period-accepted: a connect accepted with nonce %d was replayed verbatim after %d other identities had used the pool (%s driver): result %v instead of a verification failure", n0, crowd, driverNames[drv], again))
+		}
+		if before != after {
+			mon = append(mon, "c06-refused-left-trace: the replayed connect changed the pool state")
+		}
+	}
+	ctx.Emit(Case{I: i, Kind: "replay-after-crowd-" + driverNames[drv], Desc: map[string]interface{}{"other_identities": crowd, "first": fmt.Sprint(first), "replay": fmt.Sprint(again)}, Monitor: mon})
+}
+
 func runC06(ctx *Ctx) {
 	n := ctx.N(30, 800)
+	for drv := 0; drv < 2; drv++ {
+		if ctx.Want(n + 50 + drv) {
+			c06Crowd(ctx, n+50+drv, drv)
+		}
+	}
 	forEachCase(ctx, n, func(i int, rng *rand.Rand) {
 		drv := i % 2
 		a := newAuthWorld(drv)
